@@ -42,7 +42,7 @@ package server
 // What no part of first-packet processing may touch: bytes already held in buffers (the consumed
 // prefix is replayed to the redirect target afterwards), the peer-facing state of every connection,
 // and the server configuration.
-//@ define KEEP heap(E_Int), heap(G_out), heap(G_outlen), heap(G_outwrites), heap(G_inpos), heap(G_closedconn), heap(G_rdeadline), heap(GU_replies), State.Panel, State.AdminUID, State.ProxyBook, State.BypassUID, State.StaticPv, State.RedirDialer, State.RedirHost, State.RedirPort, State.WorldState, heap(B_Slice), heap(MD_Str_Iface), heap(MV_Str_Iface)
+//@ define KEEP heap(E_Int), heap(G_out), heap(G_outlen), heap(G_outwrites), heap(G_inpos), heap(G_closedconn), heap(G_rdeadline), heap(GU_replies), State.Panel, State.AdminUID, State.ProxyBook, State.BypassUID, State.StaticPv, State.RedirDialer, State.RedirHost, State.RedirPort, State.WorldState, heap(B_Slice), heap(MD_Str_Iface), heap(MV_Str_Iface), userPanel.Manager
 //@ func (Transport).processFirstPacket
 //@   flag trusted
 //@   requires pvOK(privateKey)
@@ -133,7 +133,7 @@ package server
 
 //@ ghost func adminGate(sta *State, ci ClientInfo) bool { return len(sta.AdminUID) != 0 && bytesEq(ci.UID, sta.AdminUID) && ci.SessionId == 0 }
 //@ func dispatchConnection
-//@   requires conn != nil && sta != nil && sta.Panel != nil && sta.RedirDialer != nil && sta.RedirHost != nil && pvOK(sta.StaticPv) && holdsNone()
+//@   requires conn != nil && sta != nil && sta.Panel != nil && sta.Panel.Manager != nil && sta.RedirDialer != nil && sta.RedirHost != nil && pvOK(sta.StaticPv) && holdsNone()
 //@   # C07: a handshake reply is produced only for an authenticated first packet that passes the admin
 //@   # gate, or names a served proxy method and a UID the user panel accepts
 //@   atcall Responder requires authorised: succeeded("AuthFirstPacket") && (adminGate(sta, ci) || (mapHas(sta.ProxyBook, ci.ProxyMethod) && (succeeded("(*userPanel).GetUser") || succeeded("(*userPanel).GetBypassUser"))))
@@ -302,3 +302,23 @@ package server
 //@   loop 0 invariant lk: holdsOnly(panel.usageUpdateQueueM) && panel != nil && panel.usageUpdateQueue != nil
 //@   loop 0 invariant pairs: forall k [16]byte :: mapHas(panel.usageUpdateQueue, k) ==> panel.usageUpdateQueue[k] != nil && panel.usageUpdateQueue[k].up != nil && panel.usageUpdateQueue[k].down != nil
 //@   loop 1 invariant lk: holdsNone() && panel != nil
+
+// C17, ownership of sessions. dispatchConnection looks the user up (GetUser, under activeUsersM) and then
+// attaches a session to it (GetSession, under sessionsM): two separately locked steps. The lemma asks
+// for what C17 needs - the user a session is attached to is still the record registered in the panel -
+// with arbitrary interference between the steps. It does NOT hold (finding F6): the last session of
+// the user may close in between, TerminateActiveUser unregisters the record, and the new session ends
+// up on an ActiveUser the panel does not know (its usage is never reported, it cannot be terminated).
+//@ import mux "github.com/cbeuw/Cloak/internal/multiplex"
+//@ ghost func registered(panel *userPanel, user *ActiveUser) bool { return mapHas(panel.activeUsers, user.arrUID) && panel.activeUsers[user.arrUID] == user }
+//@ ghost func noLocksHeld() bool { return holdsNone() }
+//@ lemma func sessionOwnerStaysRegistered(panel *userPanel, uid []byte, id uint32, cfg mux.SessionConfig) {
+//@     if panel == nil || panel.Manager == nil { return }
+//@     assume(noLocksHeld())
+//@     user, err := panel.GetUser(uid)
+//@     if err != nil { return }
+//@     assume(user.panel == panel && user.panel.Manager != nil)
+//@     sesh, _, err2 := user.GetSession(id, cfg)
+//@     if err2 != nil || sesh == nil { return }
+//@     assert(registered(panel, user))
+//@ }
